@@ -3,6 +3,7 @@ package props
 import (
 	"fmt"
 	"os"
+	"time"
 
 	"verif/core"
 )
@@ -10,22 +11,19 @@ import (
 func init() {
 	core.Register(&core.Driver{Prop: "DBG", Serial: true, Run: func(c *core.Ctx) {
 		w := os.Stderr
-		wd := NewWorld(c14Cfg(c14Params{Seed: "empty", MemKB: 128, Depth: 2}))
-		for _, tm := range wd.db.Cat().GetAllTables() {
-			fmt.Fprintf(w, "table %s first page %d", *tm.GetTableName(), tm.Table().GetFirstPageID())
-			for i, ix := range tm.Indexes() {
-				if ix != nil {
-					fmt.Fprintf(w, " idx%d %T", i, ix)
-				}
+		cw := c11Open([]string{"l", "r"}, map[string][]int{"l": {2}, "r": {1, 2}}, c11Stats{Name: "never"})
+		qs := c11Queries([]string{"l", "r"}, false)
+		fmt.Fprintln(w, "queries", len(qs))
+		t0 := time.Now()
+		nv := 0
+		for i, q := range qs[:200] {
+			t1 := time.Now()
+			pfs, _, _ := cw.db.PlanVariants(q.SQL())
+			nv += len(pfs)
+			if i < 5 || time.Since(t1) > 100*time.Millisecond {
+				fmt.Fprintln(w, i, q.SQL(), len(pfs), time.Since(t1))
 			}
-			fmt.Fprintln(w)
 		}
-		fmt.Fprintln(w, pinVector(wd))
-		for i := 0; i < 3; i++ {
-			wd.db.Auto(fmt.Sprintf("INSERT INTO t(k, v) VALUES (%d, 'seven');", 7+i))
-			fmt.Fprintln(w, pinVector(wd))
-		}
-		wd.db.Auto("INSERT INTO u(k2, w) VALUES (1, 1);")
-		fmt.Fprintln(w, pinVector(wd))
+		fmt.Fprintln(w, "200 queries planned:", time.Since(t0), "variants", nv)
 	}})
 }
